@@ -178,4 +178,8 @@ end GaussianMonotone
 /-- the small-argument guards of the windows are the documented ones (top-hat 1.4e-6, its derivative 1e-3, sharp-k edge at 1); no new special case -/
 theorem guards_filters : Gen.Guards.filters = Spec.Guards.filters := by decide
 
+/-- components are constructed (and internal numerical routines called) at exactly the documented places: no second, differently
+    parameterised instance is built anywhere in the framework classes -/
+theorem wiring_sites : Gen.Flow.wiring.map (·.1) = Spec.Wiring.sites := by decide
+
 end Hmf.C04
